@@ -851,4 +851,116 @@ theorem tie_fwdLoadJson_sem {α : Type} (sem : String → List α → α) (conte
 /-- `FillDefault(v)` = the package's default-filling unmarshaller on an EMPTY map literal and the caller's target. -/
 theorem tie_fwdFillDefault : fcallsOf fwdConfFillDefault = [⟨"fillDefaultUnmarshaler.Unmarshal", [.other, .param 0]⟩] := by decide
 
+/-! ### round 5c: the decisions of the unmarshaller's dispatch functions, TRANSLATED from the Go conditions
+(`c17CondsSw`: every `if` and every case of a tagless switch, source order) and proven equal to the model's decision
+functions (`Model.lean`: `nfsRoute`, `fieldRoute`, `fromArrayTakesFirst`, `nilValueAccepted`, `primFromString`) for all
+arguments.  A swapped case, a changed operand, a negation, a reordered test breaks them. -/
+
+theorem tie_dispatchCondCounts : nfsCondCount = 11 ∧ namedCondCount = 13 ∧ withValCondCount = 5 ∧ noValCondCount = 9 ∧
+    primCondCount = 2 ∧ fillMapCondCount = 5 ∧ structInfoCondCount = 4 ∧ addMergeCondCount = 3 ∧ mergeCondCount = 2 ∧
+    anonInfoCondCount = 5 := by decide
+
+/-- `reflect.Kind` constants (reflect/type.go). -/
+def encRK : RK → Int
+  | .map => 21 | .slice => 23 | .string => 24 | .struct => 25 | .other => 2
+
+/-- `processFieldNotFromString` as the Go switch evaluates it: the cases in source order, first match wins. -/
+def goNfsRoute (vk tk kMap kStruct kSlice kString dft dur : Int) (impl : Bool) : NfsRoute :=
+  if nfsCond0 vk kMap tk kStruct then .structFromMap
+  else if nfsCond1 tk kSlice vk then .fillSlice
+  else if nfsCond2 vk kMap tk then .fillMap
+  else if nfsCond3 vk kString tk kMap then .mapFromString
+  else if nfsCond4 vk kString tk kSlice then .sliceFromString
+  else if nfsCond5 vk kString dft dur then .duration
+  else if nfsCond6 vk kString tk kStruct impl then .unmarshalerStruct
+  else .primitive
+
+/-- the dispatch table of `processFieldNotFromString` IS `nfsRoute`, for every value kind, field kind, duration flag and
+unmarshaler flag. -/
+theorem tie_nfsRoute (vk tk : RK) (isDur impl : Bool) :
+    goNfsRoute (encRK vk) (encRK tk) 21 25 23 24 (if isDur then 1 else 0) 1 impl = nfsRoute vk tk isDur impl := by
+  cases vk <;> cases tk <;> cases isDur <;> cases impl <;> decide
+
+/-- which filler each case calls. -/
+theorem tie_nfsCases : nfsCases =
+    ["valueKind == reflect.Map && typeKind == reflect.Struct -> mv, ok := mapValue.(map[string]any)",
+  "typeKind == reflect.Slice && valueKind == reflect.Slice -> return u.fillSlice(fieldType, value, mapValue, fullName)",
+  "valueKind == reflect.Map && typeKind == reflect.Map -> return u.fillMap(fieldType, value, mapValue, fullName)",
+  "valueKind == reflect.String && typeKind == reflect.Map -> return u.fillMapFromString(value, mapValue)",
+  "valueKind == reflect.String && typeKind == reflect.Slice -> if fieldType.Elem().Kind() == reflect.Uint8 { if strVal, ok := mapValue.(string); ok { if ",
+  "valueKind == reflect.String && derefedFieldType == durationType -> return fillDurationValue(fieldType, value, mapValue.(string))",
+  "valueKind == reflect.String && typeKind == reflect.Struct && u.implementsUnmarshaler(fieldType) -> return u.fillUnmarshalerStruct(fieldType, value, mapValue.(string))",
+  "default -> return u.processFieldPrimitive(fieldType, value, mapValue, opts, fullName)"] := by rfl
+
+/-- `processNamedField`: unexported / `-` ⇒ skipped; an env tag with a non-empty variable wins; `fillDefault` or no value
+⇒ the no-value path; otherwise the value path. -/
+def goFieldRoute (exported : Bool) (key ignoreKey : Int) (optsNil : Bool) (envVarLen envValLen : Int)
+    (fillDefault hasValue : Bool) : FieldRoute :=
+  if namedCond0 exported then .skip
+  else if namedCond2 key ignoreKey then .skip
+  else if namedCond3 optsNil envVarLen && namedCond4 envValLen then .env
+  else if namedCond6 fillDefault then .noValue
+  else if namedCond8 hasValue then .noValue
+  else .value
+
+theorem tie_fieldRoute (exported : Bool) (key ignoreKey : Int) (optsNil : Bool) (envVarLen envValLen : Int)
+    (fillDefault hasValue : Bool) :
+    goFieldRoute exported key ignoreKey optsNil envVarLen envValLen fillDefault hasValue =
+      fieldRoute exported (decide (key = ignoreKey)) (!optsNil && decide (envVarLen > 0)) (decide (envValLen > 0))
+        fillDefault hasValue := by
+  cases exported <;> cases optsNil <;> cases fillDefault <;> cases hasValue <;>
+    by_cases h1 : key = ignoreKey <;> by_cases h2 : envVarLen > 0 <;> by_cases h3 : envValLen > 0 <;>
+    simp [goFieldRoute, fieldRoute, namedCond0, namedCond2, namedCond3, namedCond4, namedCond6, namedCond8, h1, h2, h3]
+
+/-- `WithFromArray`: the nest of four tests is `fromArrayTakesFirst`. -/
+theorem tie_fromArrayTakesFirst (fromArray valueNil : Bool) (fk vk kSlice kArray len : Int) :
+    (namedCond9 fromArray valueNil && namedCond10 fk kSlice kArray && namedCond11 vk kSlice kArray && namedCond12 len) =
+      fromArrayTakesFirst fromArray valueNil (decide (fk = kSlice) || decide (fk = kArray))
+        (decide (vk = kSlice) || decide (vk = kArray)) len := by
+  simp [namedCond9, namedCond10, namedCond11, namedCond12, fromArrayTakesFirst, Bool.and_assoc]
+
+/-- `processNamedFieldWithValue`: nil value ⇒ accepted iff optional; primitive kinds go through the from-string path iff the
+unmarshaller OR the field asks for it; containers and structs never do (switch table). -/
+theorem tie_withValueDecisions (b c : Bool) :
+    withValCond0 b = b ∧ withValCond1 b = nilValueAccepted b ∧ withValCond2 b = !b ∧ withValCond3 b = b ∧
+    withValCond4 b c = primFromString b c := ⟨rfl, rfl, rfl, rfl, rfl⟩
+
+theorem tie_withValKindCases : withValKindCases =
+    ["reflect.Array,reflect.Map,reflect.Slice,reflect.Struct -> return u.processFieldNotFromString(fieldType, value, vp, opts, fullName)",
+  "default -> if u.opts.fromString || opts.fromString() { return u.processNamedFieldWithValueFromString("] := by rfl
+
+/-- `processNamedFieldWithoutValue` (`withoutValue`, `withDefault`): a default wins; under fillDefault only non-pointer
+structs are descended; otherwise containers / structs / scalars act iff the field is NOT optional; a required struct
+is an error. -/
+theorem tie_noValueDecisions (b : Bool) (a k p s : Int) :
+    noValCond0 b = b ∧ noValCond2 b = b ∧ noValCond4 b = !b ∧ noValCond5 b = !b ∧ noValCond8 b = !b ∧ noValCond7 b = b ∧
+    noValCond6 b = !b ∧ noValCond3 a p k s = (!decide (a = p) && decide (k = s)) := ⟨rfl, rfl, rfl, rfl, rfl, rfl, rfl, rfl⟩
+
+theorem tie_noValDefaultCases : noValDefaultCases =
+    ["reflect.Array,reflect.Slice -> return u.fillSliceWithDefault(derefedType, value, defaultValue, fullName)",
+  "default -> return setValueFromString(fieldKind, value, defaultValue)"] := by rfl
+
+/-- `processFieldPrimitive`: a `json.Number` goes to the number path (type switch, `tie_jsonNumberCases`), anything else
+must have the field's kind; `fillMap`: a pointer type is dereferenced, filled, then pointed to (`fillMapCond1`). -/
+theorem tie_primAndFillMapDecisions (a c : Int) (b : Bool) :
+    primCond0 a c = decide (a = c) ∧ primCond1 b = !b ∧ fillMapCond0 b = !b ∧ fillMapCond1 a c = decide (a = c) ∧
+    fillMapCond2 b = !b ∧ fillMapCond3 b = !b ∧ fillMapCond4 b = !b := ⟨rfl, rfl, rfl, rfl, rfl, rfl, rfl⟩
+
+/-! #### conf: `buildStructFieldsInfo` / `buildAnonymousFieldInfo` / `addOrMergeFields` / `mergeFields` (`infoFields`) -/
+
+/-- unexported fields are skipped, anonymous fields go to `buildAnonymousFieldInfo`, every error is returned;
+an existing child under the same lower-cased name is merged (`ok`), a map child conflicts, two leaf children or a leaf
+and a struct conflict (`len(prev.children) == 0 || len(children) == 0`), a repeated grand-child conflicts. -/
+theorem tie_structInfoDecisions (b : Bool) (m n : Int) :
+    structInfoCond0 b = !b ∧ structInfoCond1 b = b ∧ structInfoCond2 b = !b ∧ structInfoCond3 b = !b ∧
+    addMergeCond0 b = b ∧ addMergeCond1 b = !b ∧ addMergeCond2 b = !b ∧
+    mergeCond0 m n = (decide (m = 0) || decide (n = 0)) ∧ mergeCond1 b = b ∧
+    anonInfoCond0 b = !b ∧ anonInfoCond1 b = !b ∧ anonInfoCond2 b = !b ∧ anonInfoCond3 b = b ∧ anonInfoCond4 b = b :=
+  ⟨rfl, rfl, rfl, rfl, rfl, rfl, rfl, rfl, rfl, rfl, rfl, rfl, rfl, rfl⟩
+
+theorem tie_anonInfoCases : anonInfoCases =
+    ["reflect.Struct -> fields, err := buildFieldsInfo(ft, fullName)",
+  "reflect.Map -> elemField, err := buildFieldsInfo(mapping.Deref(ft.Elem()), fullName)",
+  "default -> if _, ok := info.children[lowerCaseName]; ok { return newConflictKeyError(fullName) }"] := by rfl
+
 end GoZero.C17.Tie
